@@ -20,7 +20,7 @@ MaxArity == atoi(IOEnv.MAXARITY)
 Outcomes == {"value", "error"}
 
 Pool == {"nul", "tru", "n0", "n1", "nm1", "n64", "nbig", "nmax", "nmin", "half", "nan", "inf", "es", "a", "u", "t0", "t1", "t3",
-         "l0", "l1", "l3", "m0", "m1", "r0", "r3", "rd", "ri", "it", "ex", "fn", "fn2", "fnerr", "mut", "shrink", "ml", "mk", "obj"}
+         "l0", "l1", "l3", "m0", "m1", "r0", "r3", "rd", "ri", "rmax", "rmin", "it", "ex", "exs", "exr", "fn", "fn2", "fnerr", "mut", "shrink", "ml", "mk", "obj"}
 Pool3 == {"nul", "n0", "nm1", "nbig", "half", "a", "u", "t3", "l3", "m1", "r3", "fn", "mut", "shrink"}
 
 Tuples(n) == CASE n = 0 -> {<<>>}
